@@ -23,7 +23,9 @@ fn fresh_secrets(i: usize) -> Result<[Vec<u8>; 4], String> {
     let mut w = if i % 5 == 4 {
         ArchiveWriter::new(sink.clone(), &keys::publics(1)).map_err(|e| format!("{e:?}"))?
     } else {
-        let cfg = Cfg::lvl(if i % 2 == 0 { L4::Encrypt } else { L4::Both }, (i % 4) as u32).writer_config();
+        // layer choice and level move independently so that all four configuration routes occur (the route is
+        // (level + recipients + layer index) mod 4: 0 and 2 start from ArchiveWriterConfig::new(), 1 and 3 from default())
+        let cfg = Cfg::lvl(if i % 2 == 0 { L4::Encrypt } else { L4::Both }, ((i / 2) % 4) as u32).writer_config();
         declared = Some((cfg.encryption_key().to_vec(), cfg.encryption_nonce().to_vec()));
         ArchiveWriter::from_config(sink.clone(), cfg).map_err(|e| format!("{e:?}"))?
     };
